@@ -57,9 +57,9 @@ CHECKS["C19"] = ("other", "decision tables of the six pointer functions extracte
                  "push_key/push_index add exactly one Key/Index node with prev = self and the given key/index; to_owned walks from self, unconditionally pushes one matching component per node, follows prev, stops at Origin and reverses exactly once; is_origin is the Origin discriminant test; last_field = {Origin: None, Key: Some(key), Index: recurse}; first_field = {Origin: None, Index: recurse, Key: recurse.or(Some(key))}.",
                  TB + "; std Vec::push / rev+collect / Option::or semantics; other shapes of these functions are reported as cannot-establish", "§5 C19")
 
-CHECKS["C17"] = ("other", "dataflow of the `kinds` parameter through copy/sort/dedup, injectivity of the rank table, purity of the helpers, strict-suffix recursion — over MIR",
-                 "Decides clause 1 and the fallback: the kinds list is only copied, the copy is sorted with sort_by_key(order) where `order` maps the eight kinds to eight distinct ranks, deduplicated, tested for emptiness (fallback constant) and handed to description_rec; the helpers read no statics; single_description has eight distinct phrases with Float = 'a number'; every recursive call passes a strict suffix. Hence the phrase is a function of the set of kinds. The composition of the phrase is not decided.",
-                 TB + "; std stable sort / dedup semantics; merging of number/integer phrases and punctuation are run-time string building (not decided)", "§5 C17")
+CHECKS["C17"] = ("other", "dataflow of the `kinds` parameter through copy/sort/dedup, injectivity of the rank table, purity of the helpers, strict-suffix recursion, symbolic extraction of the slice-pattern decision table — over MIR",
+                 "Decides clause 1 and the fallback: the kinds list is only copied, the copy is sorted with sort_by_key(order) where `order` maps the eight kinds to eight distinct ranks, deduplicated, tested for emptiness (fallback constant) and handed to description_rec; the helpers read no statics; single_description has eight distinct phrases with Float = 'a number'; every recursive call passes a strict suffix. Hence the phrase is a function of the set of kinds. The decision table of description_rec (which prefixes become 'a number' / 'an integer' / a single name, and how many kinds each step consumes) is extracted by a symbolic walk and compared with the statement's table on all 256 canonical lists; only the joining punctuation is not decided.",
+                 TB + "; std stable sort / dedup semantics; the joining punctuation (', ', ' or ', ', or ') is run-time string building (not decided)", "§5 C17")
 CHECKS["C18"] = ("other", "symbolic interval walk of the length dispatch + callee identity / argument provenance of the iterator chain and its three closures — over MIR",
                  "The budget table extracted from the comparison tree on received.len() equals {0-3: none, 4-7: 1, 8-12: 2, 13-17: 3, 18-24: 4, 25+: 5}; candidates are accepted.iter() unfiltered and in order, the metric is strsim::damerau_levenshtein(received, candidate), kept iff distance <= that budget, chosen by min_by(d1.cmp(d2)) (first minimum); None gives the empty string and Some names exactly that candidate.",
                  TB + "; strsim's metric and std's min_by tie rule are trusted; len is bytes", "§5 C18")
